@@ -35,7 +35,7 @@ PLANS = {
     "C15": [("heapsim", "asan", "oom", 600000, 6000000), ("heapsim", "noguard", "oom", 200000, 2000000)],
     "C16": [("runsim", "asan", "junit", 60000, 800000), ("runsim", "noexc", "junit", 30000, 200000)],
     "C17": [("runsim", "asan", "pointers", 80000, 1500000), ("runsim", "noexc", "pointers", 40000, 500000), ("runsim", "asan", "lifecycle", 20000, 300000)],
-    "C18": [("cachesim", "asan", "cache", 1500000, 12000000)],
+    "C18": [("cachesim", "asan", "cache", 1500000, 12000000), ("cachesim", "asan", "global", 600000, 6000000)],
     "C19": [("mocksim", "asan", "cfront", 48000, 800000)],
     "C20": [("runsim", "asan", "teamcity", 100000, 1200000), ("runsim", "noexc", "teamcity", 40000, 200000)],
 }
